@@ -300,6 +300,14 @@ func run(c *runner.Ctx) {
 				}
 				throughLink = false
 			}
+			if (i+j)%3 == 1 { // the headers real generated files carry
+				gh := inject.GeneratedHeaders[((i+j)/3)%len(inject.GeneratedHeaders)]
+				gsrc := inject.File(gh, []string{inject.Fillers[1], inject.StructDecl("Msg", []inject.FieldVariant{f, g}), emb})
+				repeat(c, gsrc, f.Shape+"+"+g.Shape+" [generated-file header]", n, false, 4)
+				if cli != "" && (i+j)%24 == 1 {
+					repeat(c, gsrc, f.Shape+"+"+g.Shape+" [generated-file header]", n, true, 3)
+				}
+			}
 			if (i+j)%5 == 2 { // CRLF line endings / byte-order mark
 				crlf := bytes.ReplaceAll(src, []byte("\n"), []byte("\r\n"))
 				repeat(c, crlf, f.Shape+"+"+g.Shape+" [CRLF]", n, false, 3)
